@@ -20,7 +20,12 @@ MANIFEST = dict(
          'components reproduced by the model and compared on every run. The model is claimed for ASCII input outside '
          'string literals and for numbers where IEEE rounding is not observable (<= 15 significant digits, '
          'integers < 2^53); comparisons across literal kinds and string literals with backslashes are not judged. '
-         'malformed_reported is relative to the lexer model (tokenisation is tied by correspondence only).',
+         'malformed_reported is relative to the lexer model (tokenisation is tied by correspondence only). '
+         'The model has one spelling of the command line; that the selection does not depend on HOW it is written '
+         '(short / long / --opt=value options, before or after the positionals, spec as files / stdin / --recursive '
+         'folder, -v, arguments for the backend behind `--`, a name given twice) is observed by testing: every run '
+         'draws these and is compared with the same model answer and the same reference. Not exercised: -vv (turns on '
+         'ply debug files written next to the package), -r (C20), built-in backends.',
     technique='Lean 4 proof + translator + differential correspondence + reference oracle',
     design='5 C19')
 
